@@ -29,7 +29,8 @@ Definition href_shape (r : rule * rule * rule) : option (cls * str * cls) :=
    35 cyclic numStyleLink · 36 37 relationship / content-type entry without its required attributes ·
    50 unbalanced w:fldChar · 51 52 55 non-numeric w:sym char / gridSpan · 53 unresolved relationship id ·
    54 image part missing from the package · 57 reference or note/comment without w:id ·
-   59 reader fuel · 60 61 62 63 64 not XML / missing entry / no main document / no body / style map not text ·
-   10 12 comment / note id that does not resolve · 11 self-referential comments *)
+   60 61 62 63 64 not XML / missing entry / no main document / no body / style map not text ·
+   10 12 comment / note id that does not resolve · 11 self-referential comments
+   (59, the reader model's fuel running out, is NOT a cause: Proofs/FuelFacts body_read_all_fuel) *)
 Definition domain_codes : list N :=
-  [30; 31; 32; 33; 35; 36; 37; 50; 51; 52; 53; 54; 55; 57; 59; 60; 61; 62; 63; 64; 10; 11; 12].
+  [30; 31; 32; 33; 35; 36; 37; 50; 51; 52; 53; 54; 55; 57; 60; 61; 62; 63; 64; 10; 11; 12].
